@@ -201,9 +201,12 @@ class Hasher(Pickler):
         except (TypeError, decimal.InvalidOperation):
             # If keys are unorderable, sorting them using their hash. This is
             # slower but works in any case.
-            Pickler._batch_setitems(
-                self, iter(sorted((hash(k), v) for k, v in items)), *args
-            )
+            pairs = sorted(((hash(k), v) for k, v in items), key=lambda kv: kv[0])
+            if any(kv[0] == next_kv[0] for kv, next_kv in zip(pairs, pairs[1:])):
+                # Distinct keys with the same hash (nan objects): their
+                # values may not be orderable either, use their hashes.
+                pairs.sort(key=lambda kv: (kv[0], hash(kv[1])))
+            Pickler._batch_setitems(self, iter(pairs), *args)
 
     def save_set(self, set_items):
         # forces order of items in Set to ensure consistent hash
